@@ -26,8 +26,23 @@ for d in sorted(glob.glob(os.path.join(V, "seeded", "*"))):
         c = "not run yet" if not r else ("**caught**: " + ", ".join("`%s`" % s for s in r.get("new_violations", r["violations"])[:3]) if r["caught"] else "MISSED (%s)" % r.get("note", "exit %s" % r.get("exit")))
         srows.append("| `%s` | %s | %s | %s |" % (os.path.basename(d), p, what, c))
 seeded = "\n".join(srows)
+sweeps = ""
+sp = os.path.join(V, "tools", "sweeps.json")
+if os.path.exists(sp):
+    sw = json.load(open(sp))
+    seeds = sorted(sw["seeds"], key=int)
+    w = ["| check | thorough tier: runs (exit, wall s under load) | last thorough run: evaluations / spec states / real executions | "
+         + " | ".join("quick seed %s" % x for x in seeds) + " |", "|---|---|---|" + "---|" * len(seeds)]
+    for c in sorted(set(sw["thorough"]) | {c for x in seeds for c in sw["seeds"][x]}):
+        th = sw["thorough"].get(c, [])
+        last = th[-1] if th else {}
+        w.append("| %s | %s | %s | %s |" % (
+            c, "; ".join("exit %d, %d s" % (r["exit"], r["wall_s"]) for r in th) or "run by its builder (9.5)",
+            "%s / %s / %s" % (last.get("evaluations", "-"), last.get("spec_states", "-"), last.get("impl_traces", "-")) if last else "-",
+            " | ".join("; ".join("exit %d, %d s" % (r["exit"], r["wall_s"]) for r in sw["seeds"][x].get(c, [])) or "-" for x in seeds)))
+    sweeps = "\n".join(w)
 s = open(os.path.join(V, "DESIGN.md")).read()
-for tag, body in (("FINDINGS", findings), ("SEEDED", seeded)):
+for tag, body in (("FINDINGS", findings), ("SEEDED", seeded), ("SWEEPS", sweeps)):
     a, b = "<!-- BEGIN GENERATED %s -->" % tag, "<!-- END GENERATED %s -->" % tag
     if a in s:
         s = s[:s.index(a) + len(a)] + "\n" + body + "\n" + s[s.index(b):]
